@@ -529,7 +529,8 @@ class C13(Prop):
                 "inv_reachable_renameFree", "reject_restores", "rename_visible", "relabel_visible",
                 "inv_step_counterexample",
                 "runAll_eq_run", "runAll_steps_ok", "ctorOps_renameFree", "names_run", "construct_inv", "inv_from_construct",
-                "inv_from_construct_renameFree"]
+                "inv_from_construct_renameFree", "construct_vars_spec", "construct_vars_values",
+                "DS.runAll_has", "DS.runAll_frame", "DS.setVarBody_has", "DS.setVarBody_frame", "DS.fold_look"]
     rule = ("STRATUM ctor: Dataset(<arrays with differing labels>) is an operation of the model (DS.construct, "
             "Lib/DatasetCtor.lean): the driver (op ds_ctor_history) receives the arrays with their ORIGINAL labels, aligns them "
             "itself (Lib.align, outer join), inserts the aligned arrays one by one and continues with the history; keys, dims, "
